@@ -20,7 +20,8 @@ func init() {
 
 type ownerT struct{ k int }
 
-var owners = []*ownerT{{0}, {1}, {2}, {3}}
+// distinct objects, two pairs of them with equal contents: an owner is an identity, not a value
+var owners = []*ownerT{{0}, {0}, {1}, {1}}
 
 func ownerOf(s string) interface{} {
 	if s == "n" {
